@@ -340,8 +340,30 @@ macro_rules! c02_g_bbox {
 }
 const PL_DL: [Point; 2] = [Point::new(3, 0), Point::new(0, 4)];
 const PL_UR: [Point; 2] = [Point::new(0, 3), Point::new(4, 0)];
-// (c02 thick polyline bounding box end to end: no verdict within 2700 s even for one two-vertex
-// polyline of width 3 -> not registered in any tier; see DESIGN A.4)
+/// C02 through the native drawing path only (the thick-stroke code hands scanline rectangles to
+/// fill_solid, which the probe target answers in closed form): everything drawn lies inside the
+/// styled bounding box
+macro_rules! c02_g_native {
+    ($name:ident, $unw:expr, [$(($shape:expr, $style:expr)),+ $(,)?]) => {
+        #[cfg_attr(kani, kani::proof, kani::unwind($unw))]
+        pub fn $name() {
+            let q = point(5);
+            note!("q", q);
+            $( {
+                let st = $shape.into_styled($style);
+                note!("styled", st);
+                let mut a = NProbe::<Gray8>::new(q, Rectangle::new(Point::new(-100000, -100000), Size::new(200000, 200000)));
+                st.draw(&mut a).unwrap();
+                note!("bounding_box", st.bounding_box()); note!("writes", a.writes);
+                if a.writes > 0 { check!(in_rect(&st.bounding_box(), q), "C02.inside_bbox"); }
+                reach!(a.writes > 0, "reach.drawn");
+            } )+
+        }
+    };
+}
+include!("generated/c02_strokes.rs");
+// (c02 thick polyline bounding box through pixels(): no verdict within 2700 s even for one two-vertex
+// polyline of width 3; the generated lists above go through draw() on the native target instead)
 
 // (A hooked kernel for thick-segment corners vs Styled<Polyline>::bounding_box() with symbolic end points
 // ran out of memory at 10 GB with 4-bit points and did not finish in 20 minutes with 3-bit points and 20 GB:
